@@ -109,7 +109,8 @@ def mk_format_bytes():
             back = U.parse_bytes(s)
             unit = s.split(" ")[1]
             k = U.byte_sizes[unit.lower()]
-            tol = 0 if unit == "B" else 0.005 * k + 1
+            # half a unit of the last printed digit, plus the rounding of the printed decimal to a double in parse_bytes (relative 2**-52)
+            tol = 0 if unit == "B" else 0.005 * k + 1 + n * 2.0 ** -50
             if abs(back - n) > tol:
                 raise Violation(f"parse_bytes(format_bytes({n})) = {back}: off by more than the printed precision ({tol})")
         return len(s)
